@@ -215,7 +215,7 @@ def configs(tier):
                 add(dict(struct=sname, leaves=leaves, racc="rw", wide=True, annot=True))
     for sname, struct in STRUCTS.items():
         n = n_leaves(struct)
-        if n <= 2:
+        if n <= 2 or (n == 3 and not quick):
             combos = itertools.product(POOL, repeat=n)
         else:
             # every rotation of the pool plus all-same-access rows: each position meets each spec
